@@ -627,8 +627,10 @@ pub fn get_value(
         }
         Some(Function::Replace) => {
             let source = function_arg;
-            let from = &function_args[0];
-            let to = &function_args[1];
+            let (from, to) = match (function_args.first(), function_args.get(1)) {
+                (Some(from), Some(to)) => (from, to),
+                _ => return Variant::empty(VariantType::String),
+            };
 
             let result = source.replace(from, to);
 
